@@ -93,6 +93,9 @@ def run(repo: Repo, tier: str) -> Report:
         ob("R-FORMULA", "both a sum and a count accumulator exist", False, "could not identify the sum and the count accumulation")
         return rep
 
+    from ..rules import no_early_exit
+    from ..symb import StoreCollector
+    no_early_exit(rep, StoreCollector(fn, FILE, loop_atoms_by_name=True, strict=False).run(), FILE, "do_mean", "time / pixel / zone loops")
     # ---- R-ACC: typed widths
     facts = [f for f in typed_facts(repo.root, ["do_mean"]) if f["kernel"] == "do_mean"]
     rep.floor("typed do_mean entry signatures", len([f for f in facts if f["ok"]]), 3)
